@@ -151,6 +151,41 @@ func TestC15Hook(t *testing.T) {
 				last["PSA_DHCPC_DOMAIN_NAME"], last["PSA_DHCPC_DNS_LIST"], st.domain, wantDNS)
 		}
 	}
+	// "drops them on NAK": the next re-validation is refused.  The hook is then run without a configuration and must not be
+	// told anything of the lease that was dropped (its environment carries no address, router, DNS or domain variable);
+	// after that the client acquires a lease anew (the selecting REQUEST is acknowledged) and the hook hears its values.
+	if vl.n > 0 && len(vl.v) == 0 {
+		leaseVars := []string{"PSA_DHCPC_IPV4_ADDRESS", "PSA_DHCPC_IPV4_ROUTER", "PSA_DHCPC_NETMASK", "PSA_DHCPC_DOMAIN_NAME", "PSA_DHCPC_DNS_LIST", "PSA_DHCPC_MTU", "PSA_DHCPC_LEASE_SEC"}
+		before := len(w.calls())
+		nconf := setifaceCount(w.name)
+		time.Sleep(7 * time.Second) // let the client's rate limiter refill: NAK, purge and re-acquisition are 8 transitions
+		w.rs.domain, w.rs.dns2 = "three.example", false
+		w.rs.mode = "nak-renew"
+		ifmon.VerifLinkUp(w.name)
+		atomic.AddInt64(&vl.n, 1)
+		if !waitConfigured(nconf + 1) {
+			vl.add("c15-hook", "after a NAK: the interface was not configured again within 15 s")
+		} else {
+			calls := w.calls()
+			// calls made since: one without a configuration (the purge), then one with the new lease
+			if len(calls) != before+2 {
+				vl.add("c15-hook", "NAK and re-acquisition: %d hook calls, want 2 (removal, new configuration)", len(calls)-before)
+			} else {
+				for _, k := range leaseVars {
+					if v, ok := calls[before][k]; ok {
+						vl.add("c15-hook", "hook call for the removal of the address after a NAK still carries %s=%s of the dropped lease", k, v)
+					}
+				}
+				if calls[before]["PSA_DHCPC_INTERFACE"] != w.name {
+					vl.add("c15-hook", "hook call for the removal: PSA_DHCPC_INTERFACE=%q", calls[before]["PSA_DHCPC_INTERFACE"])
+				}
+				if c := calls[before+1]; c["PSA_DHCPC_DOMAIN_NAME"] != "three.example" || c["PSA_DHCPC_DNS_LIST"] != "10.20.0.1" || c["PSA_DHCPC_IPV4_ADDRESS"] != "10.20.0.66" {
+					vl.add("c15-hook", "after re-acquisition the hook was told address %q domain %q DNS %q; the ACK says 10.20.0.66, three.example, 10.20.0.1",
+						c["PSA_DHCPC_IPV4_ADDRESS"], c["PSA_DHCPC_DOMAIN_NAME"], c["PSA_DHCPC_DNS_LIST"])
+				}
+			}
+		}
+	}
 	cancel()
 	select {
 	case <-done:
